@@ -118,6 +118,10 @@ func destructive(r *RNG, k int, id uint32, byID [2]byte) hotline.Transaction {
 
 func c04Family(c *Case) {
 	r := c.R
+	if tooManyStalls() {
+		c.Dist("skipped/after-repeated-stalls")
+		return
+	}
 	// ---- accounts
 	alicePw := wirePassword(r, r.Pick(1, 8, 20, 71, 72, 72))
 	if r.Chance(25) {
@@ -182,18 +186,17 @@ func c04Family(c *Case) {
 		b, err := ts.LoginOK(fmt.Sprintf("10.0.0.%d:5000", i+1), l, string(hotline.EncodeString(a.PwWire)), nil, fld(hotline.FieldUserName, []byte(a.Name)))
 		bys = append(bys, b)
 		if err != nil || !waitCount(b, 3) {
-			c.Note("fixture", "bystander login failed")
-			c.Dist("skipped/fixture")
+			fixtureLoginFailed(c, "bystander login")
 			return
 		}
 		b.Conn.Feed(encTran(tranOf(500, 0x70000000)))
 		if !waitCount(b, 4) {
-			c.Dist("skipped/fixture")
+			fixtureLoginFailed(c, "bystander keep-alive")
 			return
 		}
 	}
 	if !waitCount(bys[0], 5) {
-		c.Dist("skipped/fixture")
+		fixtureLoginFailed(c, "user-joined notice to the first bystander")
 		return
 	}
 	barrier := func(id uint32) bool {
@@ -410,6 +413,7 @@ func c04Family(c *Case) {
 		conn.gate = func(int) {
 			if !waitFor(5*time.Second, func() bool { return countTransactions(conn.Written()) >= loginOuts-1 }) {
 				gateOK = false
+				stalls.Add(1)
 			}
 			time.Sleep(2 * time.Millisecond)
 		}
